@@ -112,6 +112,12 @@ pub trait OcflStore {
     /// Instructs the store to gracefully stop any in-flight work and not accept any additional
     /// requests.
     fn close(&self);
+
+    /// Returns true if the path on the local filesystem is inside of the repository or contains
+    /// it. This is never the case for repositories that are not on the local filesystem.
+    fn contains_local_path(&self, _path: &Path) -> bool {
+        false
+    }
 }
 
 /// Operations related to staging versions of objects
